@@ -37,7 +37,9 @@ def role_split_and_trade_same_day(sk, leaf, ob):
 
 
 def role_overflow(sk, leaf, ob):
-    return "overflow" in (leaf.get("msg") or "").lower() or "overflow" in (ob.get("why") or "").lower()
+    """the panic message is rust_decimal's overflow panic (Addition/Subtraction/Multiplication/Division overflowed)"""
+    txt = ((leaf.get("msg") or "") + " " + (ob.get("why") or "")).lower()
+    return "overflowed" in txt
 
 
 def role_unmerged_marker(sk, leaf, ob):
